@@ -28,7 +28,8 @@ FUNCTIONS = sorted({f"simplifications.{r[0]}" for r in RW}) + ["ast.bool.If", "o
 TRUSTED = ["z3 4.13 / z3 5.1 / cvc5 1.0.3 decide the VCs", "CPython 3.12 executes the function bodies",
            "vf/contracts/sem.py is the SMT-LIB meaning of each operation name",
            "structural induction from per-constructor contracts to whole trees (stated, not mechanised)"]
-ASSUMPTIONS = ["widths enumerated: quick {1,8} (+16 for Reverse, 4 for mul), thorough {1,2,3,8,16,32}",
+ASSUMPTIONS = ["widths enumerated: quick {1,8} (+16 for Reverse, 4 for mul), thorough {1,2,3,8,16,32}; plus, for each rewriter, every integer literal 9..128 "
+               "its source (and what it reaches) mentions, and half of it (bitwise_and_simplifier: 16, 32, 64)",
                "variadic arity <= 3 at the root and <= 2 in nested nodes; nested Concat/extension shapes from a stated set",
                "nested nodes whose operation must be fully decided range over the operations the rewriter (and what it reaches) mentions, "
                "plus one opaque representative per signature class for all others",
@@ -86,8 +87,11 @@ def tasks(tier, seed=0):
 def _simp_tasks(tier):
     ws = [1, 8] if tier == "quick" else [1, 2, 3, 8, 16, 32]
     out = []
+    from vf.contracts import simp
     for rw, op, ars in RW:
-        wl = ws
+        # widths (and halves of width sums) the rewriter's own source singles out are always enumerated
+        magic = {x for m in simp.mentioned_widths(rw) for x in (m // 2, m) if x <= 64}
+        wl = sorted(set(ws) | magic)
         if op == "Reverse":
             wl = [16] if tier == "quick" else [8, 16, 32]
         if op == "__add__":
@@ -106,6 +110,8 @@ def _simp_tasks(tier):
                 if op == "Concat" and ar > w:
                     continue
                 if op == "__add__" and ar == 3 and w == 8 and tier == "quick":
+                    continue
+                if w in magic and w not in ws and ar > 2:
                     continue
                 out.append(task(M, "ob_rewriter", f"simp.{rw}[{op}/{ar}]/meaning@w{w}", ["C01", "C04"],
                                 replay="vf.contracts.simp:replay_rewriter", rw=rw, op=op, w=w, arity=ar, tier=tier,
